@@ -85,6 +85,7 @@ type streamOpts struct {
 	pesLenModes  bool // unbounded (0) PES_packet_length besides exact
 	minPackets   int
 	uniquePacket bool // make every packet of a PID distinguishable (payload never equal to its predecessor's)
+	networkPID   bool // the PAT's programme 0 may name a PID of its own (not 0x10) that carries NIT sections, some before the first PAT; only for relational oracles: whether a demuxer follows network_PID is not fixed by the properties
 	relaxedSI    bool // units on the DVB SI PIDs (not PAT/PMT) may be cut anywhere: pointer_field alone in the first packet, a packet boundary exactly at the end of a non-last section
 }
 
@@ -278,6 +279,7 @@ func drawStream(t *rapid.T, o streamOpts) *streamModel {
 	}
 	// PAT first when there are PMT PIDs (and sometimes without)
 	var pat *ref.Section
+	var netPID uint16
 	if nPMT > 0 || gen.Chance(t, 30, "patanyway") {
 		pd := &astits.PATData{TransportStreamID: uint16(gen.EdgeU(t, 16, "tsid"))}
 		for i := 0; i < nPMT; i++ {
@@ -287,6 +289,9 @@ func drawStream(t *rapid.T, o streamOpts) *streamModel {
 		}
 		if gen.Chance(t, 30, "nitentry") {
 			pd.Programs = append([]*astits.PATProgram{{ProgramNumber: 0, ProgramMapID: 0x10}}, pd.Programs...)
+		} else if o.networkPID && gen.Chance(t, 50, "netpid") {
+			netPID = drawPID("netpid")
+			pd.Programs = append([]*astits.PATProgram{{ProgramNumber: 0, ProgramMapID: netPID}}, pd.Programs...)
 		}
 		pat = &ref.Section{TableID: 0, CurrentNext: true, Version: uint8(gen.EdgeU(t, 5, "patver")), PAT: pd}
 		patSecs := []*ref.Section{pat}
@@ -332,6 +337,13 @@ func drawStream(t *rapid.T, o streamOpts) *streamModel {
 			add(u)
 		}
 	}
+	if netPID != 0 {
+		for i, nu := 0, 1+gen.Uniform(t, 3, "nunet"); i < nu; i++ {
+			u := drawPSIUnit(t, netPID, gen.KindNIT, ccOf(netPID), o, nil, fmt.Sprintf("net%d", i))
+			u.kind, u.expect, u.sections = unitPrivate, nil, nil
+			add(u)
+		}
+	}
 	if o.siPIDs {
 		for _, k := range siKinds {
 			if gen.Chance(t, 25, fmt.Sprintf("si%d", k)) {
@@ -357,6 +369,13 @@ func drawStream(t *rapid.T, o streamOpts) *streamModel {
 	emit := func(sp *streamPacket) {
 		sp.raw = sp.p.MustEncode()
 		m.packets = append(m.packets, sp)
+	}
+	if netPID != 0 && gen.Bool(t, "netfirst") {
+		// a whole unit of the network PID before the PAT that names it
+		for _, sp := range queues[netPID][:len(m.perPID[netPID][0].packets)] {
+			emit(sp)
+		}
+		queues[netPID] = queues[netPID][len(m.perPID[netPID][0].packets):]
 	}
 	if pat != nil {
 		first := m.perPID[0][0]
